@@ -30,6 +30,7 @@ def run(ctx: Context) -> None:
     ctx.rule(sample_rules)
     ctx.rule(finder_rules)
     ctx.rule(stateless_rule)
+    ctx.rule(fresh_batch_rule)
 
 
 def sample_rules(ctx: Context) -> None:
@@ -254,3 +255,166 @@ def stateless_rule(ctx: Context) -> None:
             if nm in ("lru_cache", "cache"):
                 ctx.fail("D8.stateless", f"{f.qualname.split(':')[1]}:decorator:{nm}", f"@{nm} in the deduplication layer keeps earlier histories", f, d)
     ctx.ok("D8.stateless", "dedup-layer:scanned", f"{len(reach)} functions of the deduplication layer keep no state between calls")
+
+
+# ---------------------------------------------------------------------------------------------- fresh batches
+VIEW_METHODS = {"reshape", "view", "ravel", "squeeze", "transpose", "swapaxes", "astype_view"}
+VIEW_FUNCS = {"asarray", "asanyarray", "ascontiguousarray", "atleast_1d", "atleast_2d", "reshape", "squeeze", "transpose", "ravel"}
+
+
+def _basic_index(e: ast.expr) -> bool:
+    """A basic (view-making) index: slices, integers, None/Ellipsis and tuples of them."""
+    if isinstance(e, ast.Slice):
+        return True
+    if isinstance(e, ast.Constant) and (isinstance(e.value, int) or e.value is None or e.value is Ellipsis):
+        return True
+    if isinstance(e, ast.UnaryOp) and isinstance(e.operand, ast.Constant):
+        return True
+    if isinstance(e, ast.Tuple):
+        return all(_basic_index(x) for x in e.elts)
+    return False
+
+
+def retained_roots(prog, f: FuncInfo, e: ast.expr, depth: int = 0, seen: frozenset = frozenset()) -> set[str]:
+    """The attributes of `self` whose storage the value of `e` may share (through names, views and repository helpers).
+    Fresh values (constructors, arithmetic, advanced indexing, third-party calls) have no roots."""
+    if depth > 6:
+        return set()
+    sn = f.self_name
+    if isinstance(e, ast.Name):
+        if e.id in seen:
+            return set()
+        out: set[str] = set()
+        for s_ in walk_scope(f.node):
+            if isinstance(s_, (ast.Assign, ast.AnnAssign)) and s_.value is not None:
+                for t in ([s_.target] if isinstance(s_, ast.AnnAssign) else s_.targets):
+                    if isinstance(t, ast.Name) and t.id == e.id:
+                        out |= retained_roots(prog, f, s_.value, depth + 1, seen | {e.id})
+                    elif isinstance(t, ast.Tuple) and any(isinstance(x, ast.Name) and x.id == e.id for x in t.elts) and isinstance(s_.value, ast.Tuple) and len(s_.value.elts) == len(t.elts):
+                        k = next(i for i, x in enumerate(t.elts) if isinstance(x, ast.Name) and x.id == e.id)
+                        out |= retained_roots(prog, f, s_.value.elts[k], depth + 1, seen | {e.id})
+            elif isinstance(s_, ast.NamedExpr) and isinstance(s_.target, ast.Name) and s_.target.id == e.id:
+                out |= retained_roots(prog, f, s_.value, depth + 1, seen | {e.id})
+        return out
+    if isinstance(e, ast.Attribute):
+        if sn is not None and isinstance(e.value, ast.Name) and e.value.id == sn:
+            return {e.attr}
+        if e.attr == "T":
+            return retained_roots(prog, f, e.value, depth + 1, seen)
+        return set()
+    if isinstance(e, ast.Subscript):
+        return retained_roots(prog, f, e.value, depth + 1, seen) if _basic_index(e.slice) else set()
+    if isinstance(e, ast.IfExp):
+        return retained_roots(prog, f, e.body, depth + 1, seen) | retained_roots(prog, f, e.orelse, depth + 1, seen)
+    if isinstance(e, ast.BoolOp):
+        out = set()
+        for v in e.values:
+            out |= retained_roots(prog, f, v, depth + 1, seen)
+        return out
+    if isinstance(e, ast.NamedExpr):
+        return retained_roots(prog, f, e.value, depth + 1, seen)
+    if isinstance(e, ast.Call):
+        d = dotted(e.func) or ""
+        last = d.split(".")[-1]
+        if last == "getattr" and len(e.args) >= 2 and sn is not None and isinstance(e.args[0], ast.Name) and e.args[0].id == sn and isinstance(e.args[1], ast.Constant):
+            return {str(e.args[1].value)} | (retained_roots(prog, f, e.args[2], depth + 1, seen) if len(e.args) > 2 else set())
+        if last == "cast" and len(e.args) == 2:
+            return retained_roots(prog, f, e.args[1], depth + 1, seen)
+        tg = [t for t in prog.resolve_call(f, e) if isinstance(t, FuncInfo)]
+        if tg:
+            out = set()
+            for t in tg:
+                if t.qualname == f.qualname or "abstractmethod" in t.decorators:
+                    continue
+                for r in returns_of(t):
+                    if r.value is None:
+                        continue
+                    for root in retained_roots(prog, t, r.value, depth + 1, frozenset()):
+                        out.add(root)
+                    # parameters handed back: the roots of the corresponding arguments
+                    names = {x.id for x in ast.walk(r.value) if isinstance(x, ast.Name)}
+                    params = [p_ for p_ in t.params if p_ != t.self_name]
+                    for i, a in enumerate(e.args):
+                        if i < len(params) and params[i] in names and params[i] in _view_names(prog, t, r.value):
+                            out |= retained_roots(prog, f, a, depth + 1, seen)
+            return out
+        if isinstance(e.func, ast.Attribute) and last in VIEW_METHODS:
+            return retained_roots(prog, f, e.func.value, depth + 1, seen)
+        if last in VIEW_FUNCS and e.args and d.split(".")[0] in ("np", "numpy"):
+            return retained_roots(prog, f, e.args[0], depth + 1, seen)
+        return set()
+    return set()
+
+
+def _view_names(prog, t: FuncInfo, e: ast.expr) -> set[str]:
+    """Parameter names of `t` that the value `e` may be a view of (same reading as retained_roots, for parameters)."""
+    out: set[str] = set()
+
+    def go(x: ast.expr, depth: int, seen: frozenset) -> None:
+        if depth > 6:
+            return
+        if isinstance(x, ast.Name):
+            if x.id in t.params:
+                out.add(x.id)
+            if x.id in seen:
+                return
+            for s_ in walk_scope(t.node):
+                if isinstance(s_, (ast.Assign, ast.AnnAssign)) and s_.value is not None:
+                    for tg in ([s_.target] if isinstance(s_, ast.AnnAssign) else s_.targets):
+                        if isinstance(tg, ast.Name) and tg.id == x.id:
+                            go(s_.value, depth + 1, seen | {x.id})
+        elif isinstance(x, ast.Subscript) and _basic_index(x.slice):
+            go(x.value, depth + 1, seen)
+        elif isinstance(x, ast.Attribute) and x.attr == "T":
+            go(x.value, depth + 1, seen)
+        elif isinstance(x, ast.IfExp):
+            go(x.body, depth + 1, seen)
+            go(x.orelse, depth + 1, seen)
+        elif isinstance(x, ast.Call):
+            last = (dotted(x.func) or "").split(".")[-1]
+            if isinstance(x.func, ast.Attribute) and last in VIEW_METHODS:
+                go(x.func.value, depth + 1, seen)
+            elif last in VIEW_FUNCS and x.args:
+                go(x.args[0], depth + 1, seen)
+
+    go(e, 0, frozenset())
+    return out
+
+
+def fresh_batch_rule(ctx: Context) -> None:
+    """`sample()` substitutes the repeats of the first draw by the rows of later draws *in place*: a generator that hands out (a view of) storage it
+    keeps - a work array reused between calls - makes the redraw overwrite the first draw, altering points that were not repeats (and the batch
+    handed out by the previous call).  Every concrete sample_batch must return storage allocated during the call."""
+    prog = ctx.prog
+    base = ctx.func(SAMPLE).cls
+    n_bodies = 0
+    for c in prog.subclasses(base):
+        m = c.methods.get("sample_batch")
+        if m is None or "abstractmethod" in m.decorators:
+            continue
+        n_bodies += 1
+        ctx.analysed(m)
+        g = None
+        for r in returns_of(m):
+            if r.value is None:
+                continue
+            roots = retained_roots(prog, m, r.value)
+            # an attribute (re)bound to a fresh value on every path before the return is not storage kept from an earlier call
+            kept = set()
+            for a in sorted(roots):
+                stores = [s_ for fn in [m] for s_ in walk_scope(fn.node) if isinstance(s_, (ast.Assign, ast.AnnAssign)) and s_.value is not None
+                          for t in ([s_.target] if isinstance(s_, ast.AnnAssign) else s_.targets)
+                          if isinstance(t, ast.Attribute) and isinstance(t.value, ast.Name) and t.value.id == m.self_name and t.attr == a]
+                if stores:
+                    if g is None:
+                        g = CFG(m.node)
+                    rn = g.nodes_of(r)[0]
+                    dom = g.dominators()
+                    if any(g.nodes_of(s_) and g.nodes_of(s_)[0] in dom.get(rn, set()) and not (retained_roots(prog, m, s_.value) & {a}) for s_ in stores):
+                        continue
+                kept.add(a)
+            key = f"{c.name}.sample_batch:return:{' '.join(src(r.value).split())[:60]}"
+            ctx.check(not kept, "D8.fresh-batch", key, f"{c.name}.sample_batch returns storage allocated during the call",
+                      f"{c.name}.sample_batch returns `{src(r.value)[:60]}`, which may share storage with `self.{sorted(kept)[0] if kept else ''}` kept from an earlier call: the redraw of sample() "
+                      "then overwrites the first draw (points that were not repeats change) and the batch returned by the previous call", m, r)
+    ctx.floor("D8", "concrete sample_batch bodies", n_bodies, 7)
